@@ -484,8 +484,8 @@ CORE_KINDS = {
                       'OptChild': ['c02'], 'Opt56t': ['c04']},
     'f4_tlv_field': {'Child': ['c02', 'c03']},
     'f3_empty': {'Empty': ['c18d', 'c01'], 'Blob': ['c18d', 'c04'], 'SBlob': ['c18d']},
-    'f4_cons_size': {'P': ['c06d'], 'Ext': ['c06v']},
-    'f4_wide_constraint': {'Frame': ['c06d'], 'Ping': ['c06v', 'c03']},
+    'f4_cons_size': {'P': ['c06s'], 'Ext': ['c06v']},
+    'f4_wide_constraint': {'Frame': ['c06s', 'c06t'], 'Ping': ['c06v', 'c03']},
     'f7_forward': {'Nest': ['c03']},
     'f7_custom16': {'C': ['c01'], 'C2': ['c03']},
     'f2_u24': {'A_count': ['c05', 'c02'], 'A_static': ['c03']},
